@@ -54,6 +54,27 @@ func init() {
 							bad = "Delete returns an error that does not come from badger (" + p.Rel(ret.Pos()) + "): deleting an absent key must stay a no-op, prune relies on it"
 						}
 					}
+					// … including inside the closure handed to Update: no sentinel of the repo
+					var scan func(f *ssa.Function)
+					scan = func(f *ssa.Function) {
+						for _, ret := range returnsOf(f) {
+							ei := errorResultIndex(f.Signature)
+							if ei < 0 {
+								continue
+							}
+							if v := retVal(ret, ei); v != nil {
+								if u, ok := stripConv(v).(*ssa.UnOp); ok && u.Op == token.MUL {
+									if g, ok := u.X.(*ssa.Global); ok && g.Pkg != nil && isRepoPkgPath(g.Pkg.Pkg.Path()) {
+										bad = fmt.Sprintf("Delete answers %s.%s (%s): deleting an absent key must stay a no-op, prune deletes table indices and profiles unconditionally", g.Pkg.Pkg.Name(), g.Name(), p.Rel(ret.Pos()))
+									}
+								}
+							}
+						}
+						for _, af := range f.AnonFuncs {
+							scan(af)
+						}
+					}
+					scan(fn)
 					if bad != "" {
 						r.bad(funcName(fn)+"|idempotent", p.Rel(fn.Pos()), "Delete reports only badger's own errors", bad)
 					} else {
@@ -335,3 +356,492 @@ func externalMethods(p *Program, pkgPath, typeName, method string) (map[*types.F
 }
 
 var _ = token.ADD
+
+func init() {
+	register(&Rule{
+		ID: "C05-g", Template: "origin (merge commit of a single non-base input)",
+		Doc: "Merging a branch with something it already contains changes nothing: in every function of cmd/wrgl that computes a merge base, a call of a local helper that creates a merge commit (a helper that writes a ref) on a path reachable only through `len(inputs that differ from the base) == 1` passes, as the table, a value derived from that one input (an element of the list filled under the 'differs from the base' edge) — not from whichever commit was listed last. With --no-ff and the branch ahead of the merged commit, the merge commit would otherwise carry the base's table and silently revert the branch.",
+		Min: 1,
+		Run: func(p *Program, r *RuleResult) error {
+			sca, err := p.MustFuncs("pkg/ref.SeekCommonAncestor")
+			if err != nil {
+				return err
+			}
+			writers, err := p.MustFuncs("pkg/ref.SaveRef", "pkg/ref.CommitMerge", "pkg/ref.CommitHead")
+			if err != nil {
+				return err
+			}
+			fns := p.FuncsInPkg("cmd/wrgl")
+			r.Analysed = len(fns)
+			helper := map[*ssa.Function]bool{}
+			for _, fn := range fns {
+				if len(callsTo(fn, writers)) > 0 {
+					helper[fn] = true
+				}
+			}
+			for _, fn := range fns {
+				filtered, oneEdges, ok := ffContext(fn, sca)
+				if !ok || len(oneEdges) == 0 {
+					continue
+				}
+				eachCall(fn, func(c ssa.CallInstruction) {
+					sc := c.Common().StaticCallee()
+					if sc == nil || sc == fn || !helper[sc] {
+						return
+					}
+					if _, reach := reachAfter(fn, nil, c, mkCut(oneEdges), nil); reach {
+						return // not specific to the single-input case
+					}
+					key := callKey(fn, c) + "|single-input"
+					what := "the merge commit of a single non-base input carries that input's table"
+					// []byte arguments (sums) must come from the filtered list
+					n := 0
+					bad := ""
+					for i, a := range c.Common().Args {
+						sl, isSl := a.Type().Underlying().(*types.Slice)
+						if !isSl || !isByte(sl.Elem()) {
+							continue
+						}
+						n++
+						from := false
+						for x := range backwardCalls(a) {
+							if ia, ok := x.(*ssa.IndexAddr); ok && filtered[ia.X] {
+								from = true
+							}
+						}
+						if !from {
+							bad = fmt.Sprintf("argument %d (%s) does not derive from the one input that differs from the merge base", i, a.Name())
+						}
+					}
+					if n == 0 {
+						return
+					}
+					if bad != "" {
+						r.bad(key, p.Rel(c.Pos()), what, bad)
+					} else {
+						r.ok(key, p.Rel(c.Pos()), what)
+					}
+				})
+			}
+			return nil
+		},
+	})
+}
+
+func init() {
+	register(&Rule{
+		ID: "C16-k", Template: "T3 who-may-call (unsynchronised store, one worker)",
+		Doc: "The in-memory object store is a bare map: a production function that ingests into an *objmock.Store (the throw-away store `wrgl diff FILE FILE` and `wrgl preview` build) never asks the inserter for several workers — no ingest.WithNumWorkers option is built in a function that has such a store in hand. Workers write blocks concurrently; on a map without a lock that is `fatal error: concurrent map writes`.",
+		Min: 1,
+		Run: func(p *Program, r *RuleResult) error {
+			wnw, err := p.MustFuncs("pkg/ingest.WithNumWorkers")
+			if err != nil {
+				return err
+			}
+			mock, err := p.NamedType("pkg/objects/mock.Store")
+			if err != nil {
+				return err
+			}
+			isMock := func(t types.Type) bool {
+				if pt, ok := t.(*types.Pointer); ok {
+					t = pt.Elem()
+				}
+				nt, ok := t.(*types.Named)
+				return ok && nt.Obj() == mock.Obj()
+			}
+			fns := p.ProdFuncs()
+			r.Analysed = len(fns)
+			n := 0
+			for _, fn := range fns {
+				has := false
+				for _, par := range fn.Params {
+					if isMock(par.Type()) {
+						has = true
+					}
+				}
+				for _, b := range fn.Blocks {
+					for _, in := range b.Instrs {
+						if v, ok := in.(ssa.Value); ok && isMock(v.Type()) {
+							has = true
+						}
+					}
+				}
+				if !has {
+					continue
+				}
+				n++
+				key := funcName(fn) + "|mock-store-workers"
+				what := "an ingest into the unsynchronised in-memory store uses the default single worker"
+				if cs := callsTo(fn, wnw); len(cs) > 0 {
+					r.bad(key, p.Rel(cs[0].Pos()), what, funcName(fn)+" builds ingest.WithNumWorkers while holding an *objmock.Store: several workers would write its map concurrently")
+				} else {
+					r.ok(key, p.Rel(fn.Pos()), what)
+				}
+			}
+			if n == 0 {
+				r.ok("production|no-mock-store", "", "an ingest into the unsynchronised in-memory store uses the default single worker")
+			}
+			return nil
+		},
+	})
+
+	register(&Rule{
+		ID: "C08-h", Template: "provenance (a want is confirmed by the walk only)",
+		Doc: "Wants not reachable from any ref are refused: in the function of pkg/api/utils that builds *UnrecognizedWantsError, every commit that is handed to a local check (isFullCommit) on the way to confirming a want is the one (*CommitsQueue).PopUntil handed out — the walk from all refs found it — or nil; never a commit fetched from the object store by hash. Looking the hash up directly accepts commits of deleted, not yet pruned branches.",
+		Min: 1,
+		Run: func(p *Program, r *RuleResult) error {
+			popUntil, err := p.MustFuncs("pkg/ref.(*CommitsQueue).PopUntil")
+			if err != nil {
+				return err
+			}
+			fns := p.FuncsInPkg("pkg/api/utils")
+			r.Analysed = len(fns)
+			for _, fn := range fns {
+				builds := false
+				for _, b := range fn.Blocks {
+					for _, in := range b.Instrs {
+						if al, ok := in.(*ssa.Alloc); ok {
+							if pt, ok := al.Type().(*types.Pointer); ok {
+								if nt, ok := pt.Elem().(*types.Named); ok && nt.Obj().Name() == "UnrecognizedWantsError" {
+									builds = true
+								}
+							}
+						}
+					}
+				}
+				if !builds {
+					continue
+				}
+				// every commit handed to a fullness / confirmation check comes from the walk
+				n := 0
+				eachCall(fn, func(c ssa.CallInstruction) {
+					sc := c.Common().StaticCallee()
+					if sc == nil || sc == fn || fnPkgPath(sc) != fnPkgPath(fn) {
+						return
+					}
+					for ai, a := range c.Common().Args {
+						pt, ok := a.Type().(*types.Pointer)
+						if !ok {
+							continue
+						}
+						if nt, ok := pt.Elem().(*types.Named); !ok || nt.Obj().Name() != "Commit" {
+							continue
+						}
+						n++
+						key := fmt.Sprintf("%s|arg%d-from-walk", callKey(fn, c), ai)
+						what := "the commit a want is confirmed with was handed out by the ref walk"
+						bad := ""
+						for x := range backward(a, nil) {
+							cc, isCall := x.(*ssa.Call)
+							if !isCall {
+								continue
+							}
+							if isCallTo(cc, popUntil) == nil {
+								bad = fmt.Sprintf("the commit can come from %s (%s) instead of (*CommitsQueue).PopUntil: a hash that no ref leads to is accepted because the object happens to be in the store", calleeLabel(cc), p.Rel(cc.Pos()))
+							}
+						}
+						if bad != "" {
+							r.bad(key, p.Rel(c.Pos()), what, bad)
+						} else {
+							r.ok(key, p.Rel(c.Pos()), what)
+						}
+					}
+				})
+				if n == 0 {
+					r.missing(funcName(fn)+"|commit-check", "the function that refuses unreachable wants no longer checks a commit handed out by the walk")
+				}
+			}
+			return nil
+		},
+	})
+
+	register(&Rule{
+		ID: "C08-i", Template: "T1 must-traverse (seen-across-wants is filled from finished walks)",
+		Doc: "A commit is skipped as 'already listed' only when it is: in (*ClosedSetsFinder).enqueueWants the set that lets a later want stop at commits walked for an earlier one (the local map that the walk looks up with the comma-ok form and whose hit skips the commit) is extended only after the earlier want's commit list has been appended to ClosedSetsFinder.commitLists, on every path of the iteration. Filling it when a want is merely postponed makes other wants stop at commits that are in no list yet; they are listed later, after their children.",
+		Min: 1,
+		Run: func(p *Program, r *RuleResult) error {
+			fn, err := p.SSAFunc("pkg/api/utils.(*ClosedSetsFinder).enqueueWants")
+			if err != nil {
+				return err
+			}
+			lists, err := p.Field("pkg/api/utils.ClosedSetsFinder.commitLists")
+			if err != nil {
+				return err
+			}
+			r.Analysed = 1
+			// the append of a finished want's list
+			block := map[ssa.Instruction]bool{}
+			for _, b := range fn.Blocks {
+				for _, in := range b.Instrs {
+					if st, ok := in.(*ssa.Store); ok {
+						if fa, ok := st.Addr.(*ssa.FieldAddr); ok && structField(fa.X.Type(), fa.Field) == lists {
+							block[st] = true
+						}
+					}
+				}
+			}
+			if len(block) == 0 {
+				r.missing(funcName(fn)+"|commitLists", "enqueueWants no longer appends to ClosedSetsFinder.commitLists")
+				return nil
+			}
+			// local maps that are looked up with comma-ok (membership sets)
+			sets := map[ssa.Value]bool{}
+			for _, b := range fn.Blocks {
+				for _, in := range b.Instrs {
+					if lk, ok := in.(*ssa.Lookup); ok && lk.CommaOk {
+						if mm, ok := lk.X.(*ssa.MakeMap); ok {
+							sets[mm] = true
+						}
+					}
+				}
+			}
+			n := 0
+			for _, b := range fn.Blocks {
+				for _, in := range b.Instrs {
+					mu, ok := in.(*ssa.MapUpdate)
+					if !ok || !sets[mu.Map] {
+						continue
+					}
+					mm := mu.Map.(*ssa.MakeMap)
+					// only sets that live across wants: created outside the loop over wants.
+					// outer = the outermost loop around the update that does not contain the MakeMap
+					var outer *ssa.BasicBlock
+					for _, cand := range fn.Blocks {
+						if !isLoopHeader(cand) {
+							continue
+						}
+						body := loopBody(cand)
+						if !body[b] || body[mm.Block()] {
+							continue
+						}
+						if outer == nil || body[outer] {
+							outer = cand
+						}
+					}
+					if outer == nil {
+						continue
+					}
+					key := fmt.Sprintf("%s|seen-across-wants#%d", funcName(fn), n)
+					n++
+					what := "the cross-want seen set is extended only after the want's list was appended"
+					cut := loopExitEdges(outer)
+					if path, reach := reachAfter(fn, outer.Instrs[0], mu, cut, block); reach {
+						r.bad(key, p.Rel(mu.Pos()), what, fmtPath("the set is extended on a path of the want's iteration that has not appended its commit list", path))
+					} else {
+						r.ok(key, p.Rel(mu.Pos()), what)
+					}
+				}
+			}
+			if n == 0 {
+				r.missing(funcName(fn)+"|seen-across-wants", "no cross-want seen set found in enqueueWants")
+			}
+			return nil
+		},
+	})
+
+	register(&Rule{
+		ID: "C05-h", Template: "T4 refusal edge (versions keyed differently are not merged)",
+		Doc: "A merge lines rows up by key: in pkg/merge, wherever the primary keys of two versions are compared (a string-slice equality whose operands come from (*objects.Table).PrimaryKey()), the 'differ' outcome ends the operation with an error on every path. A version that is logged and left out sends no row events, which the row merge reads as 'removed by that branch': every row the other branches did not touch is deleted.",
+		Min: 1,
+		Run: func(p *Program, r *RuleResult) error {
+			pkf, err := p.MustFuncs("pkg/objects.(*Table).PrimaryKey")
+			if err != nil {
+				return err
+			}
+			fns := p.FuncsInPkg("pkg/merge")
+			r.Analysed = len(fns)
+			for _, fn := range fns {
+				n := 0
+				eachCall(fn, func(c ssa.CallInstruction) {
+					call, ok := c.(*ssa.Call)
+					if !ok || len(call.Call.Args) != 2 {
+						return
+					}
+					if b, ok := call.Type().Underlying().(*types.Basic); !ok || b.Kind() != types.Bool {
+						return
+					}
+					fromPK := 0
+					for _, a := range call.Call.Args {
+						for x := range backward(a, nil) {
+							if cc, ok := x.(*ssa.Call); ok && isCallTo(cc, pkf) != nil {
+								fromPK++
+								break
+							}
+						}
+					}
+					if fromPK == 0 {
+						return
+					}
+					key := fmt.Sprintf("%s|pk-compare#%d", funcName(fn), n)
+					n++
+					what := "versions whose primary keys differ are refused"
+					differ := boolEdges(fn, forward([]ssa.Value{call}, fwdOpts{noBinOp: true}), false)
+					if len(differ) == 0 {
+						r.bad(key, p.Rel(c.Pos()), what, "the result of the key comparison does not decide a branch")
+						return
+					}
+					for _, e := range differ {
+						if ok, _ := abortsOnly(fn, e.from.Succs[e.succ], nil, nil, map[*ssa.BasicBlock]bool{}); !ok {
+							r.bad(key, p.Rel(c.Pos()), what, "when the keys differ "+funcName(fn)+" can carry on (the odd version is skipped, logged or merged anyway)")
+							return
+						}
+					}
+					r.ok(key, p.Rel(c.Pos()), what)
+				})
+			}
+			return nil
+		},
+	})
+
+	register(&Rule{
+		ID: "C06-h", Template: "ownership (the store gets its own copy)",
+		Doc: "A stored value cannot change after it was stored: objects.saveObj hands objects.Store.Set a slice it has allocated itself (make + copy in the same function), never the caller's slice. Store implementations may keep the slice (the badger transaction store does until commit) and the callers of Save* reuse their buffers for the next object; without the copy a pending block is overwritten by the block index encoded after it and ends up stored under a key that is not the hash of its bytes.",
+		Min: 1,
+		Run: func(p *Program, r *RuleResult) error {
+			fn, err := p.SSAFunc("pkg/objects.saveObj")
+			if err != nil {
+				return err
+			}
+			set, err := ifaceMethods(p, "pkg/objects.Store", "Set")
+			if err != nil {
+				return err
+			}
+			r.Analysed = 1
+			n := 0
+			eachCall(fn, func(c ssa.CallInstruction) {
+				cc := c.Common()
+				if !cc.IsInvoke() || !set[cc.Method] || len(cc.Args) < 2 {
+					return
+				}
+				n++
+				key := callKey(fn, c) + "|own-copy"
+				what := "the value handed to Store.Set is a private copy"
+				v := cc.Args[1]
+				fresh := false
+				for x := range backward(v, nil) {
+					if _, ok := x.(*ssa.MakeSlice); ok {
+						fresh = true
+					}
+				}
+				fromParam := false
+				for x := range backward(v, nil) {
+					if _, ok := x.(*ssa.Parameter); ok {
+						if _, isSl := x.Type().Underlying().(*types.Slice); isSl {
+							fromParam = true
+						}
+					}
+				}
+				if fresh && !fromParam {
+					r.ok(key, p.Rel(c.Pos()), what)
+				} else {
+					r.bad(key, p.Rel(c.Pos()), what, "saveObj passes the caller's slice on to Store.Set: a store that keeps it sees whatever the caller encodes into that buffer next")
+				}
+			})
+			if n == 0 {
+				r.missing(funcName(fn)+"|Set", "saveObj no longer calls Store.Set")
+			}
+			return nil
+		},
+	})
+
+	register(&Rule{
+		ID: "C15-i", Template: "who-may-bind (no Go byte length in SQL)",
+		Doc: "Prefixes are compared by the database's own notion of length: no argument bound to a statement of pkg/ref/sql derives from Go's len() of a string. SQLite's substr/length count characters, Go's len counts bytes; a prefix with a multi-byte character (a remote called `café`) compared through a Go-computed length matches nothing, and exclusion prefixes exclude nothing.",
+		Min: 5,
+		Run: func(p *Program, r *RuleResult) error {
+			fns := p.FuncsInPkg("pkg/ref/sql")
+			r.Analysed = len(fns)
+			// helpers that build the argument list (they return a []interface{})
+			for _, fn := range fns {
+				returnsArgs := false
+				res := fn.Signature.Results()
+				for i := 0; i < res.Len(); i++ {
+					if sl, ok := res.At(i).Type().Underlying().(*types.Slice); ok {
+						if it, ok := sl.Elem().Underlying().(*types.Interface); ok && it.NumMethods() == 0 {
+							returnsArgs = true
+						}
+					}
+				}
+				if !returnsArgs {
+					continue
+				}
+				key := funcName(fn) + "|built-args"
+				what := "no bound argument is a Go byte length"
+				bad := ""
+				for _, b := range fn.Blocks {
+					for _, in := range b.Instrs {
+						mi, ok := in.(*ssa.MakeInterface)
+						if !ok {
+							continue
+						}
+						for x := range backward(mi.X, nil) {
+							if lc, ok := x.(*ssa.Call); ok && isBuiltin(lc, "len") && len(lc.Call.Args) == 1 {
+								if bt, ok := lc.Call.Args[0].Type().Underlying().(*types.Basic); ok && bt.Info()&types.IsString != 0 {
+									bad = "len() of a Go string is put into the argument list at " + p.Rel(mi.Pos()) + ": byte counts and SQLite's character counts differ for non-ASCII names"
+								}
+							}
+						}
+					}
+				}
+				if bad != "" {
+					r.bad(key, p.Rel(fn.Pos()), what, bad)
+				} else {
+					r.ok(key, p.Rel(fn.Pos()), what)
+				}
+			}
+			for _, fn := range fns {
+				eachCall(fn, func(c ssa.CallInstruction) {
+					if _, _, ok := isSQLCall(c); !ok {
+						return
+					}
+					key := callKey(fn, c) + "|bound-args"
+					what := "no bound argument is a Go byte length"
+					bad := false
+					check := func(v ssa.Value) {
+						for x := range backward(v, nil) {
+							if lc, ok := x.(*ssa.Call); ok && isBuiltin(lc, "len") && len(lc.Call.Args) == 1 {
+								if b, ok := lc.Call.Args[0].Type().Underlying().(*types.Basic); ok && b.Info()&types.IsString != 0 {
+									bad = true
+								}
+							}
+						}
+					}
+					for _, el := range variadicElems(c) {
+						check(el)
+					}
+					// a pre-built []interface{} handed over with args...
+					args := c.Common().Args
+					if len(args) > 0 {
+						last := args[len(args)-1]
+						if _, isSl := last.Type().Underlying().(*types.Slice); isSl {
+							for x := range backward(last, nil) {
+								if ap, ok := x.(*ssa.Call); ok && isBuiltin(ap, "append") && len(ap.Call.Args) == 2 {
+									if els, ok := sliceLitElems(ap.Call.Args[1]); ok {
+										for _, e := range els {
+											check(e)
+										}
+									}
+								}
+							}
+						}
+					}
+					if bad {
+						r.bad(key, p.Rel(c.Pos()), what, "a value computed with len() of a Go string is bound into the statement: byte counts and SQLite's character counts differ for non-ASCII names")
+					} else {
+						r.ok(key, p.Rel(c.Pos()), what)
+					}
+				})
+			}
+			return nil
+		},
+	})
+}
+
+func isLoopHeader(b *ssa.BasicBlock) bool {
+	for _, p := range b.Preds {
+		if b.Dominates(p) {
+			return true
+		}
+	}
+	return false
+}
